@@ -12,8 +12,10 @@ import collections
 import errno
 import select
 import socket
+import sys
 import ssl
 import threading
+import types
 import typing
 
 from vf import wire
@@ -287,6 +289,14 @@ class Net:
             return real_probe(conn)
 
         self._patch(ucp, "is_connection_dropped", probing)
+        # In this network a ScriptedSocket *is* the plain TCP socket: urllib3 modules that look at
+        # `socket.socket` (exact-type or isinstance tests) must see it as such.
+        shim = types.ModuleType("socket")
+        shim.__dict__.update(socket.__dict__)
+        shim.socket = ScriptedSocket  # type: ignore[attr-defined]
+        for name, mod in list(sys.modules.items()):
+            if (name == "urllib3" or name.startswith("urllib3.")) and getattr(mod, "socket", None) is socket:
+                self._patch(mod, "socket", shim)
         return self
 
     def __exit__(self, *a: typing.Any) -> None:
